@@ -4,6 +4,9 @@
      PREWRITE = snone | (ssome (zCODE xMSG CAUSE))        (client preWriteCall)
      V        = verdict of postReadReplyHeader, preReadReplyBody, postReadReplyBody (C03 syntax)
      DECODE   = sok | (serr sBOOL)   decoding a non-empty reply body into the caller's result
+                | (sraw sHAS_STATUS STATUS sHAS_BODY V V V DECODE sFIXED)
+                  a scripted peer answered with this status (sok | (zCODE xMSG CAUSE)) and,
+                  possibly, a body - the caller side alone
    observations = (STATUS sRESULT_HOLDS_THE_HANDLERS_RESULT) | shangs      (STATUS as in C03)
    The status field codec of the protocol is the identity here: the byte-level round trip is
    the hypothesis of the theorems (and C05's subject); a real protocol that loses or alters a
@@ -13,8 +16,40 @@ From Coq Require Import List Arith NArith ZArith Bool Lia.
 From Verif Require Import Base.Bytes Base.Val Model.Dispatch Model.StatusFlow Corr.C03.
 Import ListNotations.
 
+Definition dec_decode (de : val) : option (option bool) :=
+  match de with
+  | VL [t; k] => if sym_eqb t "err" then option_map Some (dec_bool k) else None
+  | _ => if sym_eqb de "ok" then Some None else None
+  end.
+
+Definition enc_view (view : caller_view) : val :=
+  match view with
+  | Sees s d => VL [enc_ostatus (if st_ok s then None else s); vbool d]
+  | Hangs => vsym "hangs"
+  end.
+
+Definition dec_ostatus (v : val) : option ostatus :=
+  if sym_eqb v "ok" then Some None else option_map Some (dec_status v).
+
+Definition zero_status : status := mkStatus 0 [] (CText []).
+
 Definition run (inp : val) : option val :=
   match inp with
+  | VL [tag; hs; st; hb; v1; v2; v3; de; fx] =>
+      if sym_eqb tag "raw" then
+        match dec_bool hs, dec_ostatus st, dec_bool hb, dec_verdict v1, dec_verdict v2, dec_verdict v3 with
+        | Some hs', Some st', Some hb', Some a, Some b, Some c =>
+            match dec_decode de, dec_bool fx with
+            | Some de', Some fx' =>
+                let P := mkProto hs' true in
+                let cl := mkCaller None a b c de' in
+                let s0 := match st' with Some s => s | None => zero_status end in
+                Some (enc_view (caller_side fx' cl (transport (fun _ => []) (fun _ => s0) P st') hb'))
+            | _, _ => None
+            end
+        | _, _, _, _, _, _ => None
+        end
+      else None
   | VL [hs; ep; fr; pw; v1; v2; v3; de; rn; fx] =>
       match dec_bool hs, dec_bool ep, dec_frame fr, dec_verdict v1, dec_verdict v2, dec_verdict v3 with
       | Some hs', Some ep', Some (f, _), Some a, Some b, Some c =>
@@ -22,25 +57,14 @@ Definition run (inp : val) : option val :=
                      | VL [t; s] => if sym_eqb t "some" then option_map Some (dec_status s) else None
                      | _ => if sym_eqb pw "none" then Some None else None
                      end in
-          let de' := match de with
-                     | VL [t; k] => if sym_eqb t "err" then option_map Some (dec_bool k) else None
-                     | _ => if sym_eqb de "ok" then Some None else None
-                     end in
-          match pw', de', dec_bool rn, dec_bool fx with
+          match pw', dec_decode de, dec_bool rn, dec_bool fx with
           | Some pw'', Some de'', Some rn', Some fx' =>
               let P := mkProto hs' ep' in
               let cl := mkCaller pw'' a b c de'' in
               (* the server's status reaches the decoder unchanged: dec (enc s) = s is realised
                  by letting enc yield no bytes and dec return the status being transported *)
-              let view :=
-                match server_side P f with
-                | SReply (Some s) => call_view (fun _ => []) (fun _ => s) fx' P f cl rn'
-                | _ => call_view (fun _ => []) (fun _ => mkStatus 0 [] (CText [])) fx' P f cl rn'
-                end in
-              Some (match view with
-                    | Sees s d => VL [enc_ostatus (if st_ok s then None else s); vbool d]
-                    | Hangs => vsym "hangs"
-                    end)
+              let s0 := match server_side P f with SReply (Some s) => s | _ => zero_status end in
+              Some (enc_view (call_view (fun _ => []) (fun _ => s0) fx' P f cl rn'))
           | _, _, _, _ => None
           end
       | _, _, _, _, _, _ => None
